@@ -74,7 +74,9 @@ def idents(expr):
     e = re.sub(r"\b0[xX][0-9a-fA-F]+[uUlL]*\b|\b\d+[uUlL]*\b", " ", expr)
     e = re.sub(r"(\.|->)\s*[A-Za-z_]\w*", " ", e)
     ids = set(re.findall(r"[A-Za-z_]\w*", e))
-    return {i for i in ids if i not in KEYWORDS and not i.startswith("__CPROVER")}
+    # variables bound by a quantifier are not program symbols
+    bound = set(re.findall(r"__CPROVER_(?:forall|exists)\s*\{[^;{}]*?\b([A-Za-z_]\w*)\s*;", expr))
+    return {i for i in ids if i not in KEYWORDS and not i.startswith("__CPROVER") and i not in bound}
 
 
 def resolve(unit, gb, outdir):
